@@ -51,7 +51,16 @@ func statementNames(w *World) map[int64]string {
 // the If ending block b; "" if the edge does not enter an arm.
 func (ar *Arms) edgeLabel(iff *ssa.If, k int) string {
 	r := ar.r
-	switch c := iff.Cond.(type) {
+	// "case !x:" of a tagless switch keeps the negation as a value: the edges swap
+	cond := iff.Cond
+	for {
+		u, isNot := cond.(*ssa.UnOp)
+		if !isNot || u.Op != token.NOT {
+			break
+		}
+		cond, k = u.X, 1-k
+	}
+	switch c := cond.(type) {
 	case *ssa.Call:
 		cc := c.Common()
 		if cc.IsInvoke() && len(cc.Args) == 0 && namedIs(cc.Value.Type(), replPath, "BinlogEvent") {
@@ -75,14 +84,18 @@ func (ar *Arms) edgeLabel(iff *ssa.If, k int) string {
 			return "formatZero"
 		}
 	case *ssa.Extract:
-		if c.Tuple == r.Select && c.Index == 1 && k == 1 {
+		if r.Select != nil && c.Tuple == ssa.Value(r.Select) && c.Index == 1 && k == 1 {
+			return "closed"
+		}
+		// the receive helper's "no event: channel closed or context done"
+		if r.RecvCall != nil && c.Tuple == ssa.Value(r.RecvCall) && c.Index == r.recvOK && k == 1 {
 			return "closed"
 		}
 	case *ssa.BinOp:
 		if c.Op != token.EQL {
 			return ""
 		}
-		if ex, ok := c.X.(*ssa.Extract); ok && ex.Tuple == r.Select && ex.Index == 0 {
+		if ex, ok := c.X.(*ssa.Extract); ok && r.Select != nil && ex.Tuple == ssa.Value(r.Select) && ex.Index == 0 {
 			if n, ok := constInt(c.Y); ok && n >= 1 && k == 0 {
 				return "done"
 			}
